@@ -106,7 +106,8 @@ def oracle(tier, rng, seeds):
                     check_cell(drv, o, sg, S, r, seen, fails); n += 1
                 if r >= 2:
                     top = 4 ** (r - 1)
-                    for S in (top, top + 1, -1, -top, 2 * top):
+                    for S in (top, top + 1, -1, -top, 2 * top, 64 * top, 64 * top * rng.randint(1, 9) + rng.randrange(top),
+                              top << rng.randint(1, 40), (1 << 64) + rng.randrange(top), 1 << rng.randint(58, 140)):
                         check_reject(drv, o, sg, S, r, fails); n += 1
                 else:
                     for S in (1, -1, 3):
